@@ -1543,6 +1543,9 @@ func (v *VMValue) ComputedExecute(ctx *Context, detail *BufferSpan) *VMValue {
 	} else {
 		vm.code = cd.code
 		vm.codeIndex = cd.codeIndex
+		// 预编译的代码没有经过 Parse，没有 parser；而 d / 3d 这类省略面数的骰子在执行时要读取自己的原文(区间相对于 Expr)
+		vm.parser = &parser{data: []byte(cd.Expr)}
+		vm.parser.pt.offset = len(vm.parser.data)
 		vm.evaluate()
 	}
 
@@ -1632,6 +1635,9 @@ func (v *VMValue) FuncInvokeRaw(ctx *Context, params []*VMValue, useUpCtxLocal b
 	} else {
 		vm.code = cd.code
 		vm.codeIndex = cd.codeIndex
+		// 预编译的代码没有经过 Parse，没有 parser；而 d / 3d 这类省略面数的骰子在执行时要读取自己的原文(区间相对于 Expr)
+		vm.parser = &parser{data: []byte(cd.Expr)}
+		vm.parser.pt.offset = len(vm.parser.data)
 		vm.evaluate()
 	}
 
